@@ -27,10 +27,14 @@ def clampN (n : Int) (N : Nat) : Nat := if n < 0 ∨ n > N then N else n.toNat
 /-- effective length -/
 def effN (cfg run : Option Int) (N : Nat) : Nat := clampN (chosenN cfg run) N
 
+/-- the number of items `RandomSelector.__call__` picks: a run-time `n` wins (a negative one means all), else the configured one -/
+def randomK (len : Nat) (cfg run : Option Int) : Nat :=
+  let n : Int := match run with | some r => r | none => (match cfg with | some c => if c = 0 then -1 else c | none => -1)
+  if n < 0 then len else min n.toNat len
+
 /-- `RandomSelector.__call__` -/
 def randomSelect (len : Nat) (cfg run : Option Int) (picks : List Nat) : List Nat :=
-  let n : Int := match run with | some r => r | none => (match cfg with | some c => if c = 0 then -1 else c | none => -1)
-  let k : Nat := if n < 0 then len else min n.toNat len
+  let k : Nat := randomK len cfg run
   if k > 0 then picks.take k else []
 
 inductive Transform | softmax | linear | none deriving DecidableEq, Repr
